@@ -549,7 +549,10 @@ def run_history(ctx, ops, cheap, label):
                 pw = op[1]
                 del w.urandom[:], w.kdf_calls[:]
                 o = lib.guarded(Auth.hash_password, pw, wrap=lambda s: s.encode("utf-8") if isinstance(s, str) else ["not-a-str"])
-                salt = w.urandom[0][1] if w.urandom else b""
+                rec = read_hash(o[1].decode("utf-8")) if o[0] == 0 and isinstance(o[1], bytes) else None
+                # the salt of this call: read from the string (how the code obtains its random bytes is its own business;
+                # that they are fresh is judged below); os.urandom's answer when there is no string
+                salt = rec[5][:sl] if rec is not None and 0 <= sl <= 255 else (w.urandom[0][1] if w.urandom else b"")
                 mops.append([1, v_py(pw), salt])
                 results.append((sl, dl, pw, salt, o))
                 run.count("history_hash")
@@ -568,33 +571,28 @@ def run_history(ctx, ops, cheap, label):
                     continue
                 h = o[1].decode("utf-8")
                 d["hash"] = h
-                rec = read_hash(h)
                 if rec is None:
                     ctx.violation("hash-malformed", d, site)
                     continue
+                made.append((pw, h, sl, dl))      # later verify operations show what a wrong string does
+                data = rec[5]
                 if rec[:5] != (16384, 16, 1, sl, dl):
                     ctx.violation("hash-embeds-stale-parameters", dict(d, embedded=list(rec[:5]), expected=[16384, 16, 1, sl, dl]), site)
-                    made.append((pw, h, sl, dl))      # later verify operations show what the stale string does
-                    continue
-                data = rec[5]
-                if [u[0] for u in w.urandom] != [sl] or len(data) != sl + dl or data[:sl] != salt:
-                    ctx.violation("hash-salt-or-length-wrong", dict(d, urandom_asked=[u[0] for u in w.urandom], data_len=len(data)), site)
-                    continue
+                if len(data) != sl + dl:
+                    ctx.violation("hash-salt-or-length-wrong", dict(d, data_len=len(data), urandom_asked=[u[0] for u in w.urandom]), site)
                 km = hashlib.sha256(pw).digest()
                 if w.kdf_calls != [[salt, dl, 16384, 16, 1]]:
                     ctx.violation("hash-kdf-parameters-wrong", dict(d, kdf_calls=w.kdf_calls), site)
-                    continue
-                want = cheap_derive(salt, dl, 16384, 16, 1, km) if cheap else ctx.kdf(salt, dl, 16384, 16, 1, km)[1]
-                if data[sl:] != want:
-                    ctx.violation("hash-digest-wrong", d, site)
-                    continue
+                elif len(data) == sl + dl:
+                    want = cheap_derive(salt, dl, 16384, 16, 1, km) if cheap else ctx.kdf(salt, dl, 16384, 16, 1, km)[1]
+                    if data[sl:] != want:
+                        ctx.violation("hash-digest-wrong", d, site)
                 if h in seen_h:
                     ctx.violation("same-hash-twice", dict(d, first_made_at_operation=seen_h[h]), site)
                 if sl >= 8 and salt in seen_salt:
                     ctx.violation("salt-reused", dict(d, salt=salt, first_used_at_operation=seen_salt[salt]), site)
                 seen_h.setdefault(h, i)
                 seen_salt.setdefault(salt, i)
-                made.append((pw, h, sl, dl))
                 if [sl, dl] != [16, 24] or len(cfg_hist) > 1:
                     run.nt(("history", label, i))
             else:
@@ -825,6 +823,10 @@ def run(run):
     hcases += [(x, b"s" * 16) for x in bad_pw]
     himpl = hash_batch(ctx, hcases)
     honest = [(pw, o[1].decode()) for (pw, _), o in zip(hcases, himpl) if o[0] == 0 and isinstance(o[1], bytes)]
+    if len(honest) < 3:
+        # hash_password did not ask os.urandom for one salt per call (reported above as a disagreement of unit auth_hash):
+        # go on with hashes made without the patched generator, so that the rest of the search still runs
+        honest += [(pw, Auth.hash_password(pw)) for pw in pws[:3]]
     run.count("real_hashes", len(honest))
 
     # ---- O1/O2: right and near-miss passwords on real hashes
